@@ -9,6 +9,7 @@ import (
 	"time"
 
 	"github.com/WICG/webpackage/go/internal/vh"
+	"github.com/WICG/webpackage/go/signedexchange/certurl"
 	"github.com/WICG/webpackage/go/signedexchange/structuredheader"
 	"github.com/WICG/webpackage/go/signedexchange/version"
 )
@@ -222,4 +223,70 @@ func VH_C01_C10_FileMutation() {
 	vh.Assert(back.Version == ver && back.RequestURI == sxURL && back.ResponseStatus == 200 && (ver == version.Version1b3 || back.RequestMethod == "GET"), "still verifies => URL, method and status are the signed ones")
 	vh.Assert(len(back.ResponseHeaders) == len(e.ResponseHeaders) && back.ResponseHeaders.Get("Content-Type") == "text/html" && back.ResponseHeaders.Get("Digest") == e.ResponseHeaders.Get("Digest") && back.ResponseHeaders.Get("Mi-Draft2") == e.ResponseHeaders.Get("Mi-Draft2"), "still verifies => response headers are the signed ones")
 	vh.Assert(bytes.Equal(out, payload), "still verifies => the payload handed back is the signed one")
+}
+
+// VH_C01_ChainPosition: the exchange is honestly signed by key K (certificate C, cert-sha256 = SHA-256(C)); the
+// certificate chain served at cert-url holds TWO certificates.  With C first ([C, D]) the exchange verifies; with C
+// second ([D, C]) it must NOT: the main certificate is the FIRST one of the chain, a signature by the holder of some
+// other certificate of the chain says nothing about the main certificate's holder (cert-sha256 then names a
+// non-main certificate).  K is the repository's test key or the second ("foreign") key; all three versions.
+func VH_C01_ChainPosition() {
+	vh.MustReach("main-first-accept", "main-second-reject")
+	ver := sxVersions[vh.Choose(3)]
+	who := vh.Choose(2)
+	payload := vh.Bytes("payload", 2)
+	c, _, priv := sxKey(who)
+	d, _, _ := sxKey(1 - who)
+	e := NewExchange(ver, sxURL, "GET", http.Header{}, 200, http.Header{"Content-Type": []string{"text/html"}}, payload)
+	vh.Assume(e.MiEncodePayload(2) == nil)
+	vh.Assume(e.AddSignatureHeader(sxSigner(c, priv, sxDate, sxExpires)) == nil)
+	first := vh.Choose(2) == 0
+	certs := []*x509.Certificate{c, d}
+	if !first {
+		certs = []*x509.Certificate{d, c}
+	}
+	chain, err := certurl.NewCertChain(certs, []byte{1}, nil)
+	vh.Assume(err == nil)
+	var cb vh.Sink
+	vh.Assume(chain.Write(&cb) == nil)
+	fetch := func(u string) ([]byte, error) { return cb.B, nil }
+	out, ok := e.Verify(time.Unix(sxDate+1, 0), fetch, sxLogger())
+	if first {
+		vh.Assert(ok && bytes.Equal(out, payload), "signed by the main (first) certificate's key: verifies")
+		vh.Reach("main-first-accept")
+	} else {
+		vh.Assert(!ok, "signed by a key whose certificate is not the main (first) certificate of the chain: rejected")
+		vh.Reach("main-second-reject")
+	}
+}
+
+// VH_C01_C02_LargePayload: payloads LONGER than one read buffer (io.ReadAll starts at 512 bytes and grows
+// 512, 896, 1408, 2048, ... ; the MI decoder hands a record out in pieces): 513, 600 and 900 bytes with record
+// sizes 4096 (one record) and 100 (final record crossing a buffer boundary), first / middle / last byte symbolic,
+// honestly signed, written, read back and verified inside the window: the payload handed back is the WHOLE
+// original payload, in every version.
+func VH_C01_C02_LargePayload() {
+	ver := sxVersions[vh.Choose(3)]
+	n := []int{513, 600, 900}[vh.Choose(3)]
+	rs := []int{4096, 100}[vh.Choose(2)]
+	payload := make([]byte, n)
+	for i := range payload {
+		payload[i] = byte('a' + i%23)
+	}
+	payload[0], payload[n/2], payload[n-1] = vh.Byte("p.first"), vh.Byte("p.mid"), vh.Byte("p.last")
+	cert, certBytes, priv := sxKey(0)
+	e := NewExchange(ver, sxURL, "GET", http.Header{}, 200, http.Header{"Content-Type": []string{"text/html"}}, payload)
+	vh.Assert(e.MiEncodePayload(rs) == nil, "MI encoding succeeds")
+	vh.Assert(e.AddSignatureHeader(sxSigner(cert, priv, sxDate, sxExpires)) == nil, "signing succeeds")
+	var w vh.Sink
+	vh.Assert(e.Write(&w) == nil, "Write succeeds")
+	back, err := ReadExchange(bytes.NewReader(w.B))
+	vh.Assert(err == nil, "ReadExchange accepts what Write produced")
+	if err != nil {
+		return
+	}
+	fetch := func(u string) ([]byte, error) { return certBytes, nil }
+	out, ok := back.Verify(time.Unix(sxDate+1, 0), fetch, sxLogger())
+	vh.Assert(ok, "an honest exchange with a large payload verifies")
+	vh.Assert(len(out) == n && bytes.Equal(out, payload), "the WHOLE payload is handed back")
 }
